@@ -48,8 +48,10 @@ func buildBoxModel(c *Ctx) *boxModel {
 	b.send = c.mustFunc(m, PkgMsg, "Box", "Send")
 	b.add = c.mustFunc(m, PkgMsg, "storedMessages", "add")
 	b.maybeGC = c.mustFunc(m, PkgMsg, "Box", "maybeGC")
-	b.mark = c.mustFunc(m, PkgMsg, "Box", "mark")
-	b.sweep = c.mustFunc(m, PkgMsg, "Box", "sweep")
+	// mark and sweep may be functions of their own or written out inside maybeGC: the rules work on what
+	// they do (gcEvents), the functions are only remembered when they exist
+	b.mark = m.Func(PkgMsg, "Box", "mark")
+	b.sweep = m.Func(PkgMsg, "Box", "sweep")
 	if len(c.fatal) > 0 {
 		return nil
 	}
@@ -101,8 +103,8 @@ func checkC14(c *Ctx) {
 	}
 	m := b.m
 	const L1, L2, O1, O2 = "C14.L1", "C14.L2", "C14.O1", "C14.O2"
-	c.Rule(L1, "store-or-forward decision and store atomic w.r.t. Send's mark+snapshot+delete", 2)
-	c.Rule(L2, "mark and sweep in one exclusive section", 2)
+	c.Rule(L1, "store-or-forward decision and store atomic w.r.t. Send's mark+snapshot+delete", 1)
+	c.Rule(L2, "mark and sweep in one exclusive section", 1)
 	c.Rule(O1, "drain after the started mark; drains exactly the snapshot", 1)
 	c.Rule(O2, "started mark not visible before the drain (or common lock)", 1)
 
@@ -217,22 +219,41 @@ func checkC14(c *Ctx) {
 	}
 
 	// ------------------------------------------------------------------ L2
-	callMark := staticCallsTo(b.fns, b.mark)
-	callSweep := staticCallsTo(b.fns, b.sweep)
-	okL2 := len(callMark) == 1 && len(callSweep) == 1 && callMark[0].Parent() == callSweep[0].Parent()
-	if okL2 {
-		s1 := b.la.sectionOf(callMark[0].(ssa.Instruction), b.boxLock)
-		s2 := b.la.sectionOf(callSweep[0].(ssa.Instruction), b.boxLock)
-		okL2 = s1 != nil && s1 == s2 && b.la.Holds(callMark[0].(ssa.Instruction), b.boxLock, LockW) && b.la.Holds(callSweep[0].(ssa.Instruction), b.boxLock, LockW)
+	marks, sweeps := b.gcEvents()
+	okL2 := len(marks) > 0 && len(sweeps) > 0
+	var sec ssa.Instruction
+	for _, e := range append(append([]ssa.Instruction(nil), marks...), sweeps...) {
+		at := b.liftToGC(e)
+		if at == nil {
+			okL2 = false
+			break
+		}
+		s1 := b.la.sectionOf(at, b.boxLock)
+		if s1 == nil || !b.la.Holds(at, b.boxLock, LockW) || (sec != nil && s1 != sec) {
+			okL2 = false
+			break
+		}
+		sec = s1
 	}
-	c.Check(okL2, L2, FuncName(b.maybeGC), "mark and sweep under one acquisition", m.Pos(b.maybeGC.Pos()), "both calls inside one exclusive section of Box.lock",
+	c.Check(okL2, L2, FuncName(b.maybeGC), "mark and sweep under one acquisition", m.Pos(b.maybeGC.Pos()), "the selection of expired topics and their deletion lie inside one exclusive section of Box.lock",
 		"expired topics are selected in one critical section and deleted in another: a topic that receives a message (or on which the party sends) in between is deleted although it was just used, and the message is never delivered")
-	// sweep deletes only what mark selected (its parameter)
-	okArg := false
-	if len(callSweep) == 1 && len(callMark) == 1 {
-		okArg = strip(callSweep[0].Common().Args[1]) == callMark[0].(ssa.Value)
+	// what is deleted is what was selected as expired
+	okArg := len(sweeps) > 0
+	for _, e := range sweeps {
+		key := e.(ssa.CallInstruction).Common().Args[1]
+		fromMark := sliceHas(b.sl.Slice(key), func(v ssa.Value) bool {
+			nx, ok := v.(*ssa.Next)
+			if !ok {
+				return false
+			}
+			rg, ok := nx.Iter.(*ssa.Range)
+			return ok && (isLoadOfField(rg.X, b.fPending) || isLoadOfField(rg.X, b.fStarted))
+		})
+		if !fromMark {
+			okArg = false
+		}
 	}
-	c.Check(okArg, L2, FuncName(b.maybeGC), "sweep receives mark's selection", m.Pos(b.maybeGC.Pos()), "sweep(mark(...))", "the topics deleted are not the ones selected as expired")
+	c.Check(okArg, L2, FuncName(b.maybeGC), "sweep receives mark's selection", m.Pos(b.maybeGC.Pos()), "the deleted keys come from the loops that select expired topics", "the topics deleted are not the ones selected as expired")
 
 	// ------------------------------------------------------------------ O1 / O2
 	// the drain: calls of HandleMessage in Send (incl. its closures) over the snapshot
@@ -276,4 +297,63 @@ func checkC14(c *Ctx) {
 	}
 	_ = fmt.Sprintf
 	_ = token.ADD
+}
+
+// gcRegion: maybeGC and the own functions it calls (mark, sweep, … — or nothing when they are inlined).
+func (b *boxModel) gcRegion() []*ssa.Function {
+	seen := map[*ssa.Function]bool{}
+	var out []*ssa.Function
+	var grow func(f *ssa.Function, d int)
+	grow = func(f *ssa.Function, d int) {
+		if f == nil || seen[f] || f.Blocks == nil || pkgPathOf(f) != PkgMsg || d > 2 {
+			return
+		}
+		seen[f] = true
+		out = append(out, f)
+		for _, in := range instrsOf(f) {
+			if ci, ok := in.(ssa.CallInstruction); ok {
+				if g := staticCallee(ci.Common()); g != nil && g != b.send && g.Name() != "initialize" {
+					grow(g, d+1)
+				}
+			}
+		}
+	}
+	grow(b.maybeGC, 0)
+	return out
+}
+
+// gcEvents: the selection of expired topics (loops over pendingMessages / startedSending) and their
+// deletion (delete from pendingMessages) in the collector's region.
+func (b *boxModel) gcEvents() (marks, sweeps []ssa.Instruction) {
+	for _, fn := range b.gcRegion() {
+		for _, in := range instrsOf(fn) {
+			switch x := in.(type) {
+			case *ssa.Range:
+				if isLoadOfField(x.X, b.fPending) || isLoadOfField(x.X, b.fStarted) {
+					marks = append(marks, in)
+				}
+			case ssa.CallInstruction:
+				if bi, ok := x.Common().Value.(*ssa.Builtin); ok && bi.Name() == "delete" && isLoadOfField(x.Common().Args[0], b.fPending) {
+					sweeps = append(sweeps, in)
+				}
+			}
+		}
+	}
+	return
+}
+
+// liftToGC: the instruction of maybeGC that executes in (in itself, or the call leading to it).
+func (b *boxModel) liftToGC(in ssa.Instruction) ssa.Instruction {
+	region := b.gcRegion()
+	for i := 0; i < 4; i++ {
+		if in.Parent() == b.maybeGC {
+			return in
+		}
+		cs := staticCallsTo(region, in.Parent())
+		if len(cs) != 1 {
+			return nil
+		}
+		in = cs[0].(ssa.Instruction)
+	}
+	return nil
 }
